@@ -686,7 +686,7 @@ func init() {
 	vk.Register(&vk.Spec{
 		ID:    "C11",
 		Level: "exploration",
-		Rule: "real binary (hook H4 keeps both generations live for 80..230 ms per reload): 5..50 consecutive SIGHUP reloads (identical file, keys added/removed, other listeners added/removed, one reload removes the key of two long-lived relays) while 8..32 clients run short authenticated exchanges against the retained TCP address, one UDP sender streams datagrams with unique ids to the retained UDP address, and four long-lived relays (idle, idle under the removed key, mid-transfer, half-closed by the target) stay open; " +
+		Rule: "real binary (hook H4 keeps both generations live for 80..230 ms per reload): 5..50 consecutive SIGHUP reloads (identical file, keys added/removed, other listeners added/removed, one reload removes the key of two long-lived relays) while 8..32 clients run short authenticated exchanges against the retained TCP address, one UDP sender streams datagrams with unique ids to the retained UDP address, and four long-lived relays (idle, idle under the removed key, mid-transfer, half-closed by the target) stay open; then quiet reloads (no traffic; the first datagram and connection afterwards must be served); replay history 0/500/10000; " +
 			"oracle over the exchange log with reload windows [SIGHUP sent, completion marker], /metrics status deltas, target-side datagram ids, relay continuity; in-process: StreamServe listeners closed while relays of all three half-close modes are paused mid-stream; class = (reload count bucket, client count bucket, overlap)",
 		Assumptions: []string{"an exchange overlapping a reload window may legitimately end as 'authenticated, dial cancelled' (clean EOF, zero bytes, ERR_CONNECT): StreamServe cancels handler contexts when its listener closes", "UDP replies are only checked for duplicates (the old generation's associations expire at hand-over)"},
 		Batches:     func(t string) int { return map[string]int{"quick": 4, "thorough": 12}[t] },
